@@ -1315,3 +1315,78 @@ theorem populate_hashes_determined (H : Bytes → Bytes) (hH : ∀ b, (H b).leng
               rcases extract_root_determines H hH _ _ fl hs1 hs2 _ m1 m2 f1 f2 [] [] hl1 hl2 he1 he2 with ⟨p, hp1, hp2, _, _⟩ | hc
               · left; rw [hp1, hp2]
               · right; exact hc
+
+/-! ## one MerkleTree object used more than once -/
+
+theorem runLoopSt_eq (H : Bytes → Bytes) : ∀ (f : Nat) (s : TreeSt),
+    (runLoopSt H f s).2 = (runLoop H f s).map (fun o => o.map (·.1)) ∧
+    (∀ r s', runLoop H f s = some (some (r, s')) → (runLoopSt H f s).1 = s')
+  | 0, s => by simp [runLoopSt, runLoop]
+  | f + 1, s => by
+    simp only [runLoopSt, runLoop]
+    cases hg : s.get 0 0 with
+    | none => simp
+    | some o =>
+      cases o with
+      | some r => simp
+      | none =>
+        simp only
+        cases hs : step H s with
+        | none => simp
+        | some s' => exact runLoopSt_eq H f s'
+
+theorem runLoop_mono (H : Bytes → Bytes) (j : Nat) : ∀ (f : Nat) (s : TreeSt),
+    (∀ x, runLoop H f s = some (some x) → runLoop H (f + j) s = some (some x)) ∧
+    (runLoop H f s = none → runLoop H (f + j) s = none)
+  | 0, s => by simp [runLoop]
+  | f + 1, s => by
+    rw [show f + 1 + j = (f + j) + 1 by omega]
+    simp only [runLoop]
+    cases hg : s.get 0 0 with
+    | none => simp
+    | some o =>
+      cases o with
+      | some r => simp
+      | none =>
+        simp only
+        cases hs : step H s with
+        | none => simp
+        | some s' => exact runLoop_mono H j f s'
+
+/-- on a fresh tree `populateOn` is `populate` -/
+theorem populateOn_newTree (H : Bytes → Bytes) (n : Nat) (fl : List Bool) (hs : List Bytes)
+    (hfuel : populate H n fl hs ≠ .outOfFuel) :
+    (populateOn H (newTree n) fl hs).2 = populate H n fl hs := by
+  unfold populateOn populate at *
+  simp only [newTree] at *
+  generalize hs0 : ({ total := n, maxD := maxDepth n, nodes := fun _ _ => none, depth := 0, index := 0,
+    flagBits := fl, hashes := hs, proved := [] } : TreeSt) = s0 at *
+  have hm := runLoop_mono H (3 * maxDepth n) (3 * fl.length + 4) s0
+  have he := runLoopSt_eq H (3 * fl.length + 4 + 3 * maxDepth n) s0
+  rw [show 3 * fl.length + 3 * maxDepth n + 4 = 3 * fl.length + 4 + 3 * maxDepth n by omega]
+  cases hr : runLoop H (3 * fl.length + 4) s0 with
+  | none =>
+    rw [hm.2 hr] at he
+    simp only [he.1, Option.map_none]
+  | some o =>
+    cases o with
+    | none => rw [hr] at hfuel; simp at hfuel
+    | some x =>
+      obtain ⟨r, s'⟩ := x
+      have h2 := hm.1 (r, s') hr
+      rw [h2] at he
+      have h3 := he.2 r s' rfl
+      simp only [he.1, h3, Option.map_some]
+      split <;> (try split) <;> rfl
+
+/-- calling populate_tree again on a tree whose root is known runs no iteration: it raises unless no hash and
+    no set flag bit is supplied, and the tree (including `proved_txs`) is unchanged -/
+theorem populateOn_finished (H : Bytes → Bytes) (t : TreeSt) (r : Bytes) (fl : List Bool) (hs : List Bytes)
+    (hroot : t.get 0 0 = some (some r)) :
+    populateOn H t fl hs = ({ t with flagBits := fl, hashes := hs },
+      if hs.length ≠ 0 then .error else if fl.any id then .error else .done r t.proved) := by
+  unfold populateOn
+  have hg : ({ t with flagBits := fl, hashes := hs } : TreeSt).get 0 0 = some (some r) := hroot
+  rw [show 3 * fl.length + 3 * t.maxD + 4 = (3 * fl.length + 3 * t.maxD + 3) + 1 by omega]
+  simp only [runLoopSt, hg]
+  split <;> (try split) <;> rfl
